@@ -5,13 +5,6 @@ From BP Require Import Model.WellFormed Model.C06Obs.
 From BP Require Import gen.Tables Spec.Varint Spec.C06Wire.
 From BP Require Import Proofs.C06SpecP Proofs.C06LoopP Proofs.C06EncP Proofs.C06StoreP Proofs.C06DecP Proofs.C06PresP.
 
-(* bytes(m) contains, as a contiguous segment, a contribution of field i that starts with the tag
-   (number of f, wire type of f's proto type) *)
-Definition emitted_in (sc : schema) (o : obj) (i : nat) (f : fdesc) : Prop :=
-  forall all, enc_obj sc o = Ok all ->
-  exists pre h post, all = pre ++ h ++ post /\ here sc (ocur o) i (raw_at o i) f = Ok h /\
-                     starts_with_tag (fnum f) (base_wire_type (fty f)) h.
-
 Lemma wf_num_range sc ng f : wf_field sc ng f = true -> 1 <= fnum f < 2 ^ 29.
 Proof.
   unfold wf_field. intros W. apply andb_prop in W as [W _]. apply andb_prop in W as [W _].
@@ -68,9 +61,6 @@ Proof.
   intros A. unfold marked. destruct (fieldless sc v); [|assumption].
   destruct v; cbn [mark_sow]; try assumption. destruct o. intros l. discriminate.
 Qed.
-
-(* the kinds with explicit presence, as a property of the field alone *)
-Definition explicit_field (f : fdesc) : Prop := optional_like f \/ exists g, fgroup f = Some g.
 
 Lemma explicit_field_singular sc ng f :
   wf_field sc ng f = true -> explicit_field f -> singular_hint (fhint f) = true.
@@ -229,37 +219,40 @@ Qed.
 Lemma value_not_sentinel f x : is_value x -> is_sentinel f x = false.
 Proof. intros [A B]. destruct x; try reflexivity; congruence. Qed.
 
+Lemma construct_facts sc c kw :
+  ocls (construct sc c kw) = c /\
+  ocur (construct sc c kw) =
+    cur_loop 0 (cfields (get_class sc c)) (oraw (construct sc c kw)) (repeat None (cngroups (get_class sc c))).
+Proof. split; reflexivity. Qed.
+
 (* whatever keyword arguments were given: if the attribute of an explicit-presence field ended up holding a
    value and (for a oneof member) no later member of its group was given too, the field is emitted *)
-Theorem emit_after_construct sc c kw i f :
+Theorem emit_after_construct sc c kw i f o :
   wf_schema sc = true ->
   nth_error (cfields (get_class sc c)) i = Some f -> explicit_field f ->
-  let o := construct sc c kw in
+  o = construct sc c kw ->
   is_value (raw_at o i) -> singular_value (raw_at o i) ->
   (forall g, fgroup f = Some g ->
      forall k f', (i < k)%nat -> nth_error (cfields (get_class sc c)) k = Some f' -> fgroup f' = Some g ->
                   is_sentinel f' (raw_at o k) = true) ->
   emitted_in sc o i f /\ (forall g, fgroup f = Some g -> which_one_of o g = Some i).
 Proof.
-  intros W Hf He o Hv Hs Hlater.
+  intros W Hf He Eo Hv Hs Hlater.
   pose proof (wf_field_of sc c f W (nth_error_In _ _ Hf)) as Wf.
-  pose proof (construct_raw_length sc c kw) as Hl. fold o in Hl.
-  assert (Hcls : ocls o = c) by reflexivity.
+  pose proof (construct_raw_length sc c kw) as Hl.
+  destruct (construct_facts sc c kw) as [Hcls Hcur].
+  rewrite <- Eo in Hl, Hcls, Hcur. clear Eo.
   assert (Hsel : forall g, fgroup f = Some g -> nth g (ocur o) None = Some i).
-  { intros g G. unfold o, construct. rewrite post_init_cur.
-    set (raw := fold_left _ kw _) in *.
-    assert (Er : oraw o = raw) by reflexivity.
-    change (Some i) with (Some (0 + i)%nat).
-    eapply cur_loop_last; try eassumption.
-    - unfold raw_at in Hv. rewrite Er in Hv.
-      apply (nth_error_of_nth raw i PPlaceholder). rewrite <- Er, Hl. eapply nth_error_lt. exact Hf.
-    - apply value_not_sentinel. unfold raw_at in Hv. rewrite Er in Hv. exact Hv.
+  { intros g G. rewrite Hcur.
+    apply (cur_loop_last g (cfields (get_class sc c)) (oraw o) O _ i f (raw_at o i) Hf).
+    - apply nth_error_of_nth. rewrite Hl. eapply nth_error_lt. exact Hf.
+    - exact G.
+    - apply value_not_sentinel. exact Hv.
     - intros k f' x' Lt Hk Hx' G'. specialize (Hlater g G k f' Lt Hk G').
-      unfold raw_at in Hlater. rewrite Er in Hlater. rewrite (nth_error_nth _ _ _ Hx') in Hlater. exact Hlater.
+      unfold raw_at in Hlater. rewrite (nth_error_nth _ _ _ Hx') in Hlater. exact Hlater.
     - rewrite repeat_length. eapply wf_group_lt; eassumption. }
   split; [|intros g G; apply Hsel; exact G].
-  eapply emit_explicit_state.
-  - exact Wf.
+  apply (emit_explicit_state sc (cngroups (get_class sc c)) o i f Wf).
   - unfold fields_of. rewrite Hcls. exact Hf.
   - unfold fields_of. rewrite Hcls. exact Hl.
   - eapply explicit_field_singular; eassumption.
@@ -283,11 +276,20 @@ Lemma lazy_path_default_witness :
   wf_schema k12_schema = true /\
   exists m leaf, k12_after 0 = Ok m /\ descend k12_schema m [1%nat; 1%nat] = Ok leaf /\
                  osow leaf = true /\ enc_obj k12_schema m = Ok [].
-Proof. split; [vm_compute; reflexivity|]. vm_compute. do 2 eexists. repeat split. Qed.
+Proof.
+  split; [vm_compute; reflexivity|].
+  exists (Obj 11 [PPlaceholder; PMsg (Obj 11 [PPlaceholder; PMsg (Obj 11 [PInt 0; PPlaceholder] true [] [])] false [] [])] false [] []),
+         (Obj 11 [PInt 0; PPlaceholder] true [] []).
+  repeat split; vm_compute; reflexivity.
+Qed.
 
 (* with a non-default value the intermediate m.rec IS emitted although serialized_on_wire(m.rec) is False *)
 Lemma lazy_path_nondefault_witness :
   exists m child, k12_after 5 = Ok m /\ descend k12_schema m [1%nat] = Ok child /\
                   osow child = false /\ child_on_wire m 1 = false /\
                   enc_obj k12_schema m = Ok [x1a; x04; x1a; x02; x08; x05].
-Proof. vm_compute. do 2 eexists. repeat split. Qed.
+Proof.
+  exists (Obj 11 [PPlaceholder; PMsg (Obj 11 [PPlaceholder; PMsg (Obj 11 [PInt 5; PPlaceholder] true [] [])] false [] [])] false [] []),
+         (Obj 11 [PPlaceholder; PMsg (Obj 11 [PInt 5; PPlaceholder] true [] [])] false [] []).
+  repeat split; vm_compute; reflexivity.
+Qed.
